@@ -3,6 +3,7 @@ import MpcVerif.Model.Iknp
 import MpcVerif.Model.IknpBuf
 import MpcVerif.Model.Cot
 import MpcVerif.Model.CoBytes
+import MpcVerif.Model.RsaOtBytes
 
 namespace Drv.C06
 open Mpc Drv Mpc.Iknp
@@ -480,6 +481,75 @@ def handleCoBytes (stape rtape batches : String) : String :=
     if r.2 then head ++ ";ok=" ++ ",".intercalate (r.1.outs.map labelsHex) else head ++ ";err"
   | _, _, _ => "bad-op"
 
+/-! ### RSA OT: the integers and byte strings of every transfer -/
+
+/-- Big-endian value of a byte array (`big.Int.SetBytes`). -/
+def natOfBA (b : ByteArray) : Nat := b.foldl (fun acc x => acc * 256 + x.toNat) 0
+
+/-- Hex of an even-length string, `-` = empty. -/
+def hexOpt (s : String) : Option ByteArray := if s == "-" then some ByteArray.empty else Aes.bytesOfHex s
+
+def octetsHex (bs : RsaOt.Octets) : String :=
+  if bs.isEmpty then "-" else String.ofList (bs.flatMap fun b => [hexDigit (b / 16), hexDigit (b % 16)])
+
+/-- `hex(n.Bytes())`. -/
+def natHex (n : Nat) : String := octetsHex (RsaOt.natBytes n)
+
+/-- `bit,m0,m1,x0,x1,k[,rejected candidates]` (the last field only concerns how
+`rand.Int` is fed: ignored). -/
+def parseXfer (s : String) : Option RsaOt.XferIn :=
+  match s.splitOn "," with
+  | bit :: m0 :: m1 :: x0 :: x1 :: k :: _ => do
+    let m0 ← hexOpt m0
+    let m1 ← hexOpt m1
+    let x0 ← hexOpt x0
+    let x1 ← hexOpt x1
+    let k ← hexOpt k
+    if bit != "0" && bit != "1" then none else
+    some { bit := bit == "1", m0 := m0.toList.map (·.toNat), m1 := m1.toList.map (·.toNat),
+           x0 := natOfBA x0, x1 := natOfBA x1, k := natOfBA k }
+  | _ => none
+
+/-- Transfers of one batch until the first one that does not deliver. -/
+def runXfers (N e d size : Nat) : List RsaOt.XferIn → List String
+  | [] => []
+  | t :: ts =>
+    match RsaOt.xferX N e d size t with
+    | none => [s!"v={natHex (RsaOt.receiverVX N e (if t.bit then t.x1 else t.x0) t.k)}/S"]
+    | some (w, out) =>
+      let head := s!"v={natHex w.v}/m0={natHex w.m0p}/m1={natHex w.m1p}/out="
+      match out with
+      | .ok m => (head ++ octetsHex m) :: runXfers N e d size ts
+      | .err => [head ++ "E"]
+      | .panic => [head ++ "P"]
+
+/-- `rsa <api> <keysrc> <bits> <size> <N> <e> <d> <transfers>`: a batch of `RSA.Send` /
+`RSA.Receive` (api `proto`) or single transfers of `SenderXfer` / `ReceiverXfer`
+(api `xfer`) on one key, all randomness in the op line.  Per transfer
+`v=<v.Bytes()>/m0=<m0'.Bytes()>/m1=<m1'.Bytes()>/out=<message | E | P>`
+(`E` error return, `P` panic; the batch stops there), `v=../S` = the sender's
+`NewEncryptionBlock` fails. -/
+def handleRsa (size N e d xfers : String) : String :=
+  match size.toNat?, Aes.bytesOfHex N, e.toNat?, Aes.bytesOfHex d with
+  | some size, some N, some e, some d =>
+    match (xfers.splitOn ";").mapM parseXfer with
+    | none => "bad-op"
+    | some ts => ";".intercalate (runXfers (natOfBA N) e (natOfBA d) size ts)
+  | _, _, _, _ => "bad-op"
+
+/-- `rsamodn ...`: the same batch with the mod-`N` SENDER (`RsaOt.wireModN`, not
+the code of /repo): only used to show on which transfers the two differ. -/
+def handleRsaModN (size N e d xfers : String) : String :=
+  match size.toNat?, Aes.bytesOfHex N, e.toNat?, Aes.bytesOfHex d with
+  | some size, some N, some e, some d =>
+    match (xfers.splitOn ";").mapM parseXfer with
+    | none => "bad-op"
+    | some ts => ";".intercalate (ts.map fun t =>
+        match RsaOt.xferX (natOfBA N) e (natOfBA d) size t, RsaOt.xferModNX (natOfBA N) e (natOfBA d) size t with
+        | some (w, o), some (w', o') => if w == w' && o == o' then "same" else "differs"
+        | _, _ => "S")
+  | _, _, _, _ => "bad-op"
+
 /-- Line-protocol handler of property C06. -/
 def handle (args : List String) : String :=
   match args with
@@ -489,6 +559,8 @@ def handle (args : List String) : String :=
   | ["cotb", kind, mal, _base, _transport, stape, rtape, al, batches] => handleCotB kind mal stape rtape al batches
   | ["mitccrh", seed, bsz, calls] => handleMitccrh seed bsz calls
   | ["cobytes", stape, rtape, batches] => handleCoBytes stape rtape batches
+  | ["rsa", _api, _keysrc, _bits, size, n, e, d, xfers] => handleRsa size n e d xfers
+  | ["rsamodn", _api, _keysrc, _bits, size, n, e, d, xfers] => handleRsaModN size n e d xfers
   | _ => "bad-op"
 
 end Drv.C06
